@@ -6,33 +6,36 @@ ENTRY = dict(
         prop_file="Properties/C10.v",
         corr_files=["Corr/C10Corr.v"],
         theorems=["c10_split_barriers", "c10_combine_barriers", "c10_separate", "c10_exactly_one", "c10_members",
-                  "c10_commute", "c10_recompose", "c10_union_find", "c10_auto_idle", "c10_auto_components", "c10_keep_idle_wires",
-                  "c10_separate_drops_idle", "c10_dx_contract_inhabited", "c10_cuts", "c10_problem_recompose",
-                  "c10_subobs_keys", "c10_subobs_tensor", "c10_problem_subobs", "c10_separate_total", "c10_cutting_total",
-                  "c10_problem_total", "c10_separate_refuses", "c10_problem_refuses",
+                  "c10_commute", "c10_recompose", "c10_recompose_circuit", "c10_union_find", "c10_auto_idle", "c10_auto_components", "c10_keep_idle_wires",
+                  "c10_separate_drops_idle", "c10_dx_contract_inhabited", "c10_cuts", "c10_cut_decision", "c10_cuts_only", "c10_problem_recompose",
+                  "c10_subobs_keys", "c10_subobs_tensor", "c10_problem_subobs", "c10_separate_total", "c10_separate_total_auto", "c10_cutting_total",
+                  "c10_problem_total", "c10_problem_total_auto", "c10_separate_refuses", "c10_problem_refuses",
                   "c10_idle_observable", "c10_idle_observable_problem", "c10_facts"],
         allowed_axioms=[],
         facts=["value_error_sites", "c10_separate_calls", "c10_problem_calls", "c10_idle_group_removed",
                "c10_auto_ignores_qpd2", "c10_keep_idle_default", "c10_label_suffix",
                "c10_relabel_resets_definition"],
         harness="c10",
-        level_text="Unbounded theorems (all circuit lengths, qubit counts, label sequences, Pauli lists; by induction, no sampling) "
-                   "about the executable model of utils/transforms.py (barrier splitting with live-index iteration, union-find "
-                   "labelling, qubit map, per-partition instruction lists, re-indexing, barrier re-joining with the running delete "
-                   "shift) and of partition_circuit_qubits / cut numbering / TwoQubitQPDGate halves / sub-observables in "
-                   "cutting_decomposition.py: each subcircuit IS the original restricted to its label (order kept, barriers "
-                   "restricted per partition) re-indexed; per-wire sequences of the recomposition equal the original's; a generic "
-                   "commutation theorem turns equal per-wire/per-clbit projections into equal Herbrand denotations for any "
-                   "interleaving; union-find correctness (same root iff connected), idle <-> None, consecutive labels ordered by "
-                   "least qubit; the k-th cut gives two halves with suffix k and the same basis in the right partitions; keys of "
-                   "sub-observables = keys of subcircuits (same order) and the tensor product is the original string; refusals. "
-                   "Totality: a valid labelling is always answered (c10_separate_total), and so is every partition_problem request that "
-                   "passes the validations, has no uncuttable gate and whose instructions act on labelled qubits (c10_problem_total, "
-                   "for every decompose oracle satisfying its contract). Automatic labels are characterised on instructions: "
-                   "connected components of the non-ignored instructions, None iff no instruction at all touches the qubit "
-                   "(c10_auto_components). "
-                   "Closed under the global context. The models are run against the implementation on >2000 generated cases per "
-                   "quick run (8 streams incl. every helper).",
+        level_text="Unbounded theorems (induction; all circuit lengths, qubit counts, label sequences, Pauli lists) about the executable model "
+                   "of utils/transforms.py and of partition_circuit_qubits / numbering / halves / sub-observables of cutting_decomposition.py. "
+                   "SUCCESS-CASE: c10_separate (each subcircuit IS the original restricted to its label, order kept, barriers restricted per "
+                   "partition, re-indexed; keys, qubit map), c10_recompose (per-wire sequences of the back-mapped parts equal the original's; "
+                   "any interleaving CARRYING THE ORIGINAL INSTANCE TAGS with the original clbit order has the original's Herbrand "
+                   "denotation), c10_recompose_circuit (the literally recomposed circuit, tags forgotten: its denotation is the original's "
+                   "with instance tags renamed injectively), c10_cuts (the k-th placeholder yields halves 0/1 with suffix k, same basis, in the "
+                   "right partitions and positions; bases ordered by k), c10_cut_decision (which gates are replaced), c10_cuts_only (every "
+                   "numeric-suffix half in a subcircuit is one of these two - as a set; multiplicity not stated; input must not contain "
+                   "halves with numeric suffix), c10_subobs_keys / c10_subobs_tensor / c10_problem_subobs (keys, letters recombine, phase 0), "
+                   "c10_problem_recompose (per wire only, against the cut circuit; no denotation statement). "
+                   "TOTALITY: c10_separate_total (valid explicit labelling), c10_separate_total_auto (automatic labels: >=1 qubit per "
+                   "instruction, qubits in range, clbits in registers), c10_problem_total (validations pass, instructions on labelled qubits, "
+                   "no uncuttable gate, OBSERVABLES IDENTITY ON THE None-LABELLED QUBITS, for every decompose oracle satisfying its contract), "
+                   "c10_problem_total_auto (automatic labels: only the shape of the input and identity on untouched qubits). "
+                   "AUTOMATIC LABELS: union-find correctness, None iff no instruction at all touches the qubit, components of the non-ignored "
+                   "instructions, consecutive labels ordered by least qubit. REFUSALS incl. the repaired F4 (= Refused). "
+                   "c10_exactly_one / c10_members are facts about the specification functions that give c10_separate its meaning, not "
+                   "clauses on their own. Closed under the global context. The models are run against the implementation on >3000 generated "
+                   "cases per quick run (10 streams incl. every helper, call forms, call histories).",
         level_note=STD_NOTE + "No axioms. partition_problem is modelled with the REPAIRED idle-qubit behaviour F4 (None group removed from "
                    "the sub-observables; ValueError when an observable acts on a None-labelled qubit); on the unrepaired tree the "
                    "correspondence disagrees exactly there and the property-level oracle confirms the violation.",
@@ -51,6 +54,10 @@ ENTRY = dict(
             "oracle QPDBasis.from_instruction: basis handle / ValueError per gate, supplied by the harness by calling it",
             "Herbrand adequacy M1 (DESIGN 3.1): equal wire-history terms mean equal channel; barriers and cut_wire markers are identities; "
             "QPD placeholders are opaque tagged gates",
+            "kinds of remaining hypotheses: INPUT PRECONDITIONS no_uuid, in_range, no_empty_instr, clbits_ok, input_ok/shape_ok (>=1 qubit, no "
+            "clbits, placeholders on two qubits), 'no half with numeric suffix' (c10_cuts_only), NoDup of the creator tags of the chosen "
+            "interleaving (c10_recompose_circuit); ORACLE dx_contract (decompose), rustworkx components, from_instruction table; "
+            "MODELLING M1 (Herbrand adequacy; instance tags are names, so denotations are compared up to injective renaming)",
             "input circuits do not already contain one-qubit barriers labelled '_uuid=...' (hypothesis no_uuid of the theorems; such a "
             "label is reserved by the implementation and would be merged by _combine_barriers)",
             "observations outside the property's quantifier (neither compared nor judged): circuit.global_phase is not carried into the "
